@@ -405,13 +405,28 @@ def _(rng, v):
 @entry("quantile")
 def _(rng, v):
     from nipy.algorithms.statistics import quantile
-    return quantile, (data(rng, v, (7, 3)), 0.25), {"axis": 0}
+    # one array per axis (the known in-place selection reorders values within the lanes of the axis it is given)
+    shapes = [(7, 3), (8, 4), (6, 5, 2)]
+    cases = [(data(rng, v, sh, lo=-2, hi=3), ax) for sh in shapes for ax in range(len(sh))]   # ties on purpose
+
+    def f(cases):
+        out = []
+        for x, axis in cases:
+            if axis >= np.ndim(x):
+                continue
+            for ratio in (0.0, 0.25, 0.5, 0.9, 1.0):
+                for interp in (False, True):
+                    out.append(quantile(x, ratio, interp=interp, axis=axis))
+        return out
+    return f, (cases,), {}
 
 
 @entry("median")
 def _(rng, v):
     from nipy.algorithms.statistics import median
-    return median, (data(rng, v, (7, 3)),), {"axis": 0}
+    shapes = [(7, 3), (8, 4), (6, 5, 2)]
+    cases = [(data(rng, v, sh, lo=-2, hi=3), ax) for sh in shapes for ax in range(len(sh))]
+    return (lambda cases: [median(x, axis=a) for x, a in cases if a < np.ndim(x)]), (cases,), {}
 
 
 @entry("histogram")
@@ -721,6 +736,29 @@ def _(rng, v):
     return (lambda x, K: (multiple_mahalanobis(x, K), multiple_mahalanobis(x, K))), (x, K), {}
 
 
+@entry("labs.bindings array ops on operands of different shapes (must be refused, memory intact)")
+def _(rng, v):
+    from nipy.labs.bindings import array as farr
+    if v in ("empty", "singleton", "midsingle"):
+        raise Skip()
+    pairs = [((5,), (5, 4)), ((5, 1), (5, 4)), ((3, 4), (3, 4, 6)), ((2, 3, 4), (2, 3, 4, 9)), ((4,), (6,)), ((3, 4), (4, 3)), ((2, 3, 2), (2, 3))]
+    ops = []
+    for sa, sb in pairs:
+        ops.append((data(rng, v, sa), data(rng, v, sb)))
+
+    def f(ops):
+        out = []
+        for A, B in ops:
+            for fn in (farr.array_add, farr.array_sub, farr.array_mul, farr.array_div):
+                for X, Y in ((A, B), (B, A)):
+                    try:
+                        out.append(np.asarray(fn(X, Y)).shape)
+                    except Exception as e:   # a refusal is the expected outcome
+                        out.append(type(e).__name__)
+        return out
+    return f, (ops,), {}
+
+
 @entry("labs.group.onesample.stat")
 def _(rng, v):
     from nipy.labs.group import onesample
@@ -840,14 +878,20 @@ def _(rng, v):
     def grid(n):
         return np.arange(-2.0 * n - 1, 3.0 * n + 1, 0.5)
 
-    def f(d1, d2, d3):
+    # the coefficient arrays are handed to the samplers in the layout of the variant too (a frame of a 4-d
+    # coefficient array, a cropped or reversed view ...): the samplers must honour the strides they are given
+    lv = v if v in ("fortran", "view", "tview", "negstride", "readonly") else "plain"
+    cs = [lay(np.array(_cspline_transform(np.array(d, dtype=float))), lv) for d in (d1, d2, d3)]
+
+    def f(d1, d2, d3, cs):
         out = []
         for mode in ("zero", "nearest", "reflect"):
-            c1 = _cspline_transform(d1); x = grid(d1.shape[0])
-            out.append(_cspline_sample1d(np.zeros(x.size), c1, x, mode=mode))
-            c2 = _cspline_transform(d2); x = grid(d2.shape[0]); y = np.resize(grid(d2.shape[1]), x.size)
-            out.append(_cspline_sample2d(np.zeros(x.size), c2, x, y, mx=mode, my=mode))
-            c3 = _cspline_transform(d3); x = grid(d3.shape[0]); y = np.resize(grid(d3.shape[1]), x.size); z = np.resize(grid(d3.shape[2]), x.size)
-            out.append(_cspline_sample3d(np.zeros(x.size), c3, x, y, z, mx=mode, my=mode, mz=mode))
+            for use_given in (False, True):
+                c1 = cs[0] if use_given else _cspline_transform(d1); x = grid(d1.shape[0])
+                out.append(_cspline_sample1d(np.zeros(x.size), c1, x, mode=mode))
+                c2 = cs[1] if use_given else _cspline_transform(d2); x = grid(d2.shape[0]); y = np.resize(grid(d2.shape[1]), x.size)
+                out.append(_cspline_sample2d(np.zeros(x.size), c2, x, y, mx=mode, my=mode))
+                c3 = cs[2] if use_given else _cspline_transform(d3); x = grid(d3.shape[0]); y = np.resize(grid(d3.shape[1]), x.size); z = np.resize(grid(d3.shape[2]), x.size)
+                out.append(_cspline_sample3d(np.zeros(x.size), c3, x, y, z, mx=mode, my=mode, mz=mode))
         return out
-    return f, (d1, d2, d3), {}
+    return f, (d1, d2, d3, cs), {}
